@@ -4,7 +4,6 @@ import (
 	"encoding/json"
 	"fmt"
 	"go/token"
-	"sort"
 	"strings"
 
 	"golang.org/x/tools/go/ssa"
@@ -13,24 +12,6 @@ import (
 // C10: SCTE-35 state tracker. The statement quantifies over call histories;
 // what is decided are value-flow, ordering and invariant-maintenance facts
 // about the three methods, each a necessary condition.
-
-// fieldStores lists the Store instructions of fn whose address is field
-// `name` of the receiver.
-func fieldStores(fn *ssa.Function, name string) []*ssa.Store {
-	var out []*ssa.Store
-	for _, b := range fn.Blocks {
-		for _, ins := range b.Instrs {
-			if st, ok := ins.(*ssa.Store); ok {
-				if fa, ok := st.Addr.(*ssa.FieldAddr); ok && fieldName(fa.X.Type(), fa.Field) == name {
-					if _, isParam := fa.X.(*ssa.Parameter); isParam {
-						out = append(out, st)
-					}
-				}
-			}
-		}
-	}
-	return out
-}
 
 func isFieldLoad(v ssa.Value, name string) bool {
 	u, ok := v.(*ssa.UnOp)
@@ -43,12 +24,17 @@ func isFieldLoad(v ssa.Value, name string) bool {
 
 // mentionsField: the expression of v contains a load of the named field.
 func mentionsField(v ssa.Value, name string) bool {
-	return strings.Contains(sx(v), "*&$s."+name)
+	var fn *ssa.Function
+	if ins, ok := v.(ssa.Instruction); ok {
+		fn = ins.Parent()
+	}
+	// the receiver by position, whatever it is called
+	return strings.Contains(canonConstruct(fn, sx(v)), "*&$p0."+name)
 }
 
 func runC10(c *Checker) {
 	c.Level = "other"
-	c.explain = "Structural necessary conditions of the state tracker's contract, decided on the SSA of Open, ProcessDescriptor and Close: (provenance) only the processed descriptor is ever appended to the open list, closed lists are built from elements loaded from the open list under CanClose / Equal, Open() returns a fresh copy; (order) the close loop walks from the last element downwards and stops at the first element that cannot be closed, the open list is truncated by exactly the number closed, Close removes exactly the matched index; (rejections) no store to the open list or the blackout fields can precede the no-PTS and duplicate returns; (blackout invariant inBlackout ⇒ blackoutIdx < len(open)) every statement that shortens the open list is followed on all paths to the function exit by a re-validation of the blackout fields, and every use of blackoutIdx is dominated by a test of inBlackout; (dispatch) the set of segmentation types appended to the open list is the documented out-types plus program breakaway; (bounds) the index/slice sites of the three methods are discharged by the bounds engine, Open()'s under the struct invariant. Does not decide: the history-level clauses (never twice, returned at most once, ring-buffer duplicate detection for arbitrary sequences)."
+	c.explain = "Step semantics of the state tracker decided by abstract interpretation from seeded abstract states (open list of 0..3 opaque stored descriptors, constant blackout fields, CanClose/Equal answers per scenario): ProcessDescriptor returns the maximal closable suffix last-opened-first, keeps the order of the rest and appends only the processed descriptor, for exactly the documented out types plus breakaway/resumption (all 256 types), with the blackout fields following; Close removes exactly the last opened equal descriptor; Open returns a fresh copy without the pending breakaway; no-PTS descriptors are rejected without any change; duplicate detection over seeded received rings. Structural rules: the blackout invariant inBlackout ⇒ 0 ≤ blackoutIdx < len(open) by induction over the two storing methods (path execution + Fourier–Motzkin), single owners of the fields, the received ring invariant, and the bounds of all index/slice sites. Does not decide: the composition over whole histories (induction over these step facts, argued), that blackoutIdx designates the breakaway element beyond the scenarios."
 	c.trust("go/ssa + go/types (x/tools v0.29.0)", "bounds engine", "struct invariant inBlackout ⇒ 0 ≤ blackoutIdx < len(open) holds at every method entry (it is what rule C10.invariant maintains)")
 	proc, err1 := c.P.Func("scte35:(*state).ProcessDescriptor")
 	cls, err2 := c.P.Func("scte35:(*state).Close")
@@ -286,263 +272,6 @@ func runC10(c *Checker) {
 			}
 		}
 	}
-}
-
-func phiName(v ssa.Value) string { return "" }
-
-// appendedIs: v = append(x, elems...) where the single appended element
-// renders as want.
-func appendedIs(v ssa.Value, want string) bool {
-	call, ok := v.(*ssa.Call)
-	if !ok || len(call.Call.Args) != 2 {
-		return false
-	}
-	el := appendedElem(call.Call.Args[1])
-	return el != nil && sx(el) == want
-}
-
-// appendedElem: the variadic slice `new [1]T; store elem; slice` → elem.
-func appendedElem(v ssa.Value) ssa.Value {
-	sl, ok := v.(*ssa.Slice)
-	if !ok {
-		return nil
-	}
-	al, ok := sl.X.(*ssa.Alloc)
-	if !ok {
-		return nil
-	}
-	var elem ssa.Value
-	n := 0
-	for _, ref := range *al.Referrers() {
-		if ia, ok := ref.(*ssa.IndexAddr); ok {
-			for _, r2 := range *ia.Referrers() {
-				if st, ok := r2.(*ssa.Store); ok {
-					elem = st.Val
-					n++
-				}
-			}
-		}
-	}
-	if n != 1 {
-		return nil
-	}
-	return elem
-}
-
-func blockReaches(a, b *ssa.BasicBlock) bool {
-	if a == b {
-		return true
-	}
-	seen := map[int]bool{}
-	stack := []*ssa.BasicBlock{a}
-	for len(stack) > 0 {
-		x := stack[len(stack)-1]
-		stack = stack[:len(stack)-1]
-		if seen[x.Index] {
-			continue
-		}
-		seen[x.Index] = true
-		if x == b {
-			return true
-		}
-		stack = append(stack, x.Succs...)
-	}
-	return false
-}
-
-// checkCloseLoop: the loop that scans the open list starts at len-1, steps
-// by -1, and (for ProcessDescriptor) leaves at the first non-closable element.
-func (c *Checker) checkCloseLoop(fn *ssa.Function, mustBreak bool) {
-	found := false
-	for _, li := range findLoopsSSA(fn) {
-		for _, ins := range li.header.Instrs {
-			phi, ok := ins.(*ssa.Phi)
-			if !ok {
-				break
-			}
-			if phi.Comment != "i" {
-				continue
-			}
-			init, step := "", ""
-			for k, e := range phi.Edges {
-				if li.body[li.header.Preds[k]] {
-					step = sx(e)
-				} else {
-					init = sx(e)
-				}
-			}
-			// the loop that indexes s.open with i
-			uses := false
-			for b := range li.body {
-				for _, in2 := range b.Instrs {
-					if ia, ok := in2.(*ssa.IndexAddr); ok && ia.Index == ssa.Value(phi) && strings.Contains(sx(ia.X), "$s.open") {
-						uses = true
-					}
-				}
-			}
-			if !uses {
-				continue
-			}
-			found = true
-			c.check("C10.order", shortFn(fn), "scan of the open list starts at the last element", init == "(len(*&$s.open)-1)", "starts at "+init)
-			c.check("C10.order", shortFn(fn), "scan of the open list moves towards the first element one at a time", strings.HasSuffix(step, "-1)") && strings.Contains(step, "phi["), "step "+step)
-			if mustBreak {
-				// the else-branch of the CanClose test leaves the loop
-				okBreak := false
-				for b := range li.body {
-					ifi, ok := b.Instrs[len(b.Instrs)-1].(*ssa.If)
-					if ok && strings.Contains(sx(ifi.Cond), ".CanClose(") {
-						okBreak = !li.body[b.Succs[1]] || leadsOut(b.Succs[1], li)
-					}
-				}
-				c.check("C10.order", shortFn(fn), "scan stops at the first element that cannot be closed (closed = a suffix of open, last-opened first)", okBreak, "the loop continues past a non-closable element")
-			}
-		}
-	}
-	c.check("C10.order", shortFn(fn), "has a scan loop over the open list", found, "no loop indexing s.open with its counter")
-}
-
-// revalidatedOnAllPaths: every path from the store to a return passes an
-// instruction that stores inBlackout/blackoutIdx or branches on blackoutIdx.
-func revalidatedOnAllPaths(st *ssa.Store) (bool, string) {
-	isReval := func(ins ssa.Instruction) bool {
-		switch x := ins.(type) {
-		case *ssa.Store:
-			if fa, ok := x.Addr.(*ssa.FieldAddr); ok {
-				n := fieldName(fa.X.Type(), fa.Field)
-				return n == "inBlackout" || n == "blackoutIdx"
-			}
-		case *ssa.If:
-			// a test of inBlackout counts: when it is false the invariant is vacuous
-			return mentionsField(x.Cond, "blackoutIdx") || mentionsField(x.Cond, "inBlackout")
-		}
-		return false
-	}
-	// the store's own block: a store to the blackout fields next to it (before
-	// or after) counts — clearing inBlackout first makes the invariant vacuous
-	for _, ins := range st.Block().Instrs {
-		if ins != ssa.Instruction(st) && isReval(ins) {
-			if _, isIf := ins.(*ssa.If); !isIf {
-				return true, ""
-			}
-		}
-	}
-	if last, ok := st.Block().Instrs[len(st.Block().Instrs)-1].(*ssa.If); ok && isReval(last) {
-		return true, ""
-	}
-	seen := map[int]bool{}
-	var dfs func(b *ssa.BasicBlock) (bool, string)
-	dfs = func(b *ssa.BasicBlock) (bool, string) {
-		if seen[b.Index] {
-			return true, ""
-		}
-		seen[b.Index] = true
-		for _, ins := range b.Instrs {
-			if isReval(ins) {
-				return true, ""
-			}
-		}
-		if len(b.Succs) == 0 {
-			return false, fmt.Sprintf("path reaches the exit in block %d without touching the blackout fields", b.Index)
-		}
-		for _, s := range b.Succs {
-			if ok, why := dfs(s); !ok {
-				return false, why
-			}
-		}
-		return true, ""
-	}
-	for _, s := range st.Block().Succs {
-		if ok, why := dfs(s); !ok {
-			return false, why
-		}
-	}
-	if len(st.Block().Succs) == 0 {
-		return false, "the function returns right after shortening the list"
-	}
-	return true, ""
-}
-
-// checkStateDispatch: the set of TypeID constants on the paths to
-// `open = append(open, desc)` equals the documented out types + breakaway.
-func (c *Checker) checkStateDispatch(fn *ssa.Function) {
-	got := map[int]bool{}
-	var appends []*ssa.BasicBlock
-	for _, st := range fieldStores(fn, "open") {
-		if strings.HasPrefix(sx(st.Val), "append(*&$s.open,") {
-			appends = append(appends, st.Block())
-		}
-	}
-	// constants compared with desc.TypeID(): `t == K` true edge reaching an append block
-	for _, b := range fn.Blocks {
-		ifi, ok := b.Instrs[len(b.Instrs)-1].(*ssa.If)
-		if !ok {
-			continue
-		}
-		bo, ok := ifi.Cond.(*ssa.BinOp)
-		if !ok || bo.Op != token.EQL || !strings.Contains(sx(bo), ".TypeID(") || !strings.Contains(sx(bo), "$desc") {
-			continue
-		}
-		var k *ssa.Const
-		if kk, ok := bo.Y.(*ssa.Const); ok {
-			k = kk
-		} else if kk, ok := bo.X.(*ssa.Const); ok {
-			k = kk
-		}
-		if k == nil {
-			continue
-		}
-		// does the true successor reach an append without passing another TypeID comparison?
-		for _, ab := range appends {
-			if reachesWithoutTest(b.Succs[0], ab, map[int]bool{}) {
-				got[int(k.Int64())] = true
-			}
-		}
-	}
-	want := map[int]bool{0x13: true}
-	var spec segcloseSpec
-	if jsonUnmarshal(segcloseJSON, &spec) == nil {
-		for _, s := range spec.OutTypes {
-			want[hexInt(s)] = true
-		}
-	}
-	var diff []string
-	for k := range want {
-		if !got[k] {
-			diff = append(diff, fmt.Sprintf("type %#x is an out type but is never opened", k))
-		}
-	}
-	for k := range got {
-		if !want[k] {
-			diff = append(diff, fmt.Sprintf("type %#x is opened but is not a documented out type", k))
-		}
-	}
-	sort.Strings(diff)
-	c.check("C10.dispatch", shortFn(fn), "types appended to the open list == documented out types + program breakaway", len(diff) == 0, strings.Join(diff, "; "))
-	c.extra["opened_types"] = len(got)
-}
-
-// reachesWithoutTest: from b to target without crossing another comparison of
-// desc.TypeID() (i.e. within the same switch arm, including fallthrough).
-func reachesWithoutTest(b, target *ssa.BasicBlock, seen map[int]bool) bool {
-	if b == target {
-		return true
-	}
-	if seen[b.Index] {
-		return false
-	}
-	seen[b.Index] = true
-	if ifi, ok := b.Instrs[len(b.Instrs)-1].(*ssa.If); ok {
-		if strings.Contains(sx(ifi.Cond), ".TypeID(") && strings.Contains(sx(ifi.Cond), "$desc") {
-			return false
-		}
-	}
-	for _, s := range b.Succs {
-		if reachesWithoutTest(s, target, seen) {
-			return true
-		}
-	}
-	return false
 }
 
 func jsonUnmarshal(b []byte, v interface{}) error { return json.Unmarshal(b, v) }
